@@ -101,7 +101,7 @@ open_("S1", "C01", "once cache eviction has written a dirty page back before the
 open_("F6", "C08", "recovery truncates the log before the pages it redid are durable: a crash right after a recovery loses everything it recovered", "O-repeat", "crash_after_recovery_truncate", "findings/F6-recovery-truncates-log-before-redone-pages-are-durable.json")
 
 # ---- open findings: E3a (WAL) ----
-open_("W1", "C17", "an append whose size lies between (block size - 2 headers) and the advertised max_record_size is rejected after the header was already updated; reading the log then fails until the next force", "O-wal", "append_near_block_size_rejected", "findings/W1-rejected-append-leaves-log-unreadable-until-next-force.json")
+fixed("W1", "C17", "abc1c6f", "an append whose size lay between (block size - 2 headers) and the advertised max_record_size was rejected after the log header had been updated; reading the log then failed until the next force", "O-wal", "findings/W1-rejected-append-leaves-log-unreadable-until-next-force.json")
 
 json.dump({"comment": "Known findings of the pinned tree. 'open': genuine defects recorded rather than repaired; each check prints KNOWN-FINDING for those of its property whose reproducer still fails. 'fixed': repaired by a fix: commit in /repo; a fixed entry suppresses nothing. Never written at run time. Generated by tools/mkfindings.py.", "findings": F}, open("/verif/known_findings.json", "w"), indent=1)
 print(len(F), "findings")
